@@ -3,6 +3,8 @@ use crate::runner::Property;
 pub mod c01;
 pub mod c02;
 pub mod c03;
+pub mod c04;
+pub mod c06;
 pub mod c07;
 pub mod c09;
 pub mod c10;
@@ -20,6 +22,8 @@ pub fn get(id: &str) -> Option<Property> {
         "C01" => c01::property(),
         "C02" => c02::property(),
         "C03" => c03::property(),
+        "C04" => c04::property(),
+        "C06" => c06::property(),
         "C07" => c07::property(),
         "C09" => c09::property(),
         "C10" => c10::property(),
